@@ -219,17 +219,20 @@ class Parser:
         stream.next_token()
 
         # 1 or 1: or : or ?
+        has_step_colon = False
         if _maybe_index(stream.current):
             stop = int(stream.current.value)
             stream.next_token()
             if stream.current.type_ == TokenType.COLON:
+                has_step_colon = True
                 stream.next_token()
         elif stream.current.type_ == TokenType.COLON:
             stream.expect(TokenType.COLON)
+            has_step_colon = True
             stream.next_token()
 
-        # 1 or ?
-        if _maybe_index(stream.current):
+        # 1 or ?  A step must be preceded by the second colon.
+        if has_step_colon and _maybe_index(stream.current):
             step = int(stream.current.value)
             stream.next_token()
 
